@@ -1,6 +1,7 @@
 package main
 
 import (
+	"fmt"
 	"go/token"
 	"go/types"
 	"strings"
@@ -109,62 +110,42 @@ func runC10(r *Report, p *Program) {
 // c10R6: the cursor protocol that the parser's exceptions rest on.
 func c10R6(h H) {
 	r := h.r
-	r.Rule("R6", "cursor protocol: in Dispenser.Next every `return true` follows a store cursor = cursor+1 that lies behind cursor < len(tokens)-1 (so Next()==true implies cursor < len(tokens)); the Dispenser constructors start the cursor at -1; every decrement of the cursor lies directly behind a successful Next/NextArg/NextLine/nextOnSameLine, a successful doImport, or the openCurlyBrace test", 5)
-	nx := h.fn("R6", cfPkg, "(*Dispenser).Next")
-	if nx != nil {
-		okAll, n := true, 0
-		for _, rt := range realReturns(nx) {
-			c, isC := retResults(rt)[0].(*ssa.Const)
-			if !isC || c.Value == nil || c.Value.String() != "true" {
-				if !isC {
-					okAll = false
+	r.Rule("R6", "cursor protocol: Dispenser.Next, evaluated (E10) for every token list of length 0-3 and every cursor position, advances by one and returns true exactly when a further token exists (so Next()==true implies cursor < len(tokens)); the Dispenser constructors start the cursor at -1; every decrement of the cursor lies directly behind a successful Next/NextArg/NextLine/nextOnSameLine, a successful doImport, or the openCurlyBrace test", 5)
+	// Next as a decision table (E10): token lists of length 0–3, cursor anywhere from -1 to len
+	if nx := h.fn("R6", cfPkg, "(*Dispenser).Next"); nx != nil {
+		dT := nx.Params[0].Type().(*types.Pointer).Elem()
+		var tokT types.Type = types.Typ[types.Int]
+		if st, ok := underlying(dT).(*types.Struct); ok {
+			for k := 0; k < st.NumFields(); k++ {
+				if st.Field(k).Name() == "tokens" {
+					tokT = underlying(st.Field(k).Type()).(*types.Slice).Elem()
 				}
-				continue
-			}
-			n++
-			inc := func(in ssa.Instruction) bool {
-				st, ok := in.(*ssa.Store)
-				if !ok {
-					return false
-				}
-				fa, ok := st.Addr.(*ssa.FieldAddr)
-				if !ok || fieldName(fa.X.Type(), fa.Field) != "cursor" {
-					return false
-				}
-				b, ok := st.Val.(*ssa.BinOp)
-				if !ok || b.Op != token.ADD {
-					return false
-				}
-				one, okc := constInt(b.Y)
-				return okc && one == 1 && readsField(b.X, "cursor")
-			}
-			if !mustPass(nx, rt, inc) {
-				okAll = false
-			}
-			guarded := false
-			pr := proveAt(nx, rt)
-			// the guard cursor < len(tokens)-1 must be among the facts: prove len(tokens) - cursor_old - 2 >= 0 using the loads in the guard itself
-			for _, g := range guardAtoms(nx, nil, rt) {
-				if b, ok := g.Cond.(*ssa.BinOp); ok && g.Pos && b.Op == token.LSS && readsField(b.X, "cursor") {
-					goal := pr.lin(b.Y).add(pr.lin(b.X), -1).add(newLin(1), -1)
-					lenm1 := false
-					if sb, ok := b.Y.(*ssa.BinOp); ok && sb.Op == token.SUB {
-						if c1, ok := constInt(sb.Y); ok && c1 == 1 {
-							if lc, ok := sb.X.(*ssa.Call); ok && calleeName(&lc.Call) == "builtin.len" && readsField(lc.Call.Args[0], "tokens") {
-								lenm1 = true
-							}
-						}
-					}
-					if lenm1 && pr.prove(goal) {
-						guarded = true
-					}
-				}
-			}
-			if !guarded {
-				okAll = false
 			}
 		}
-		r.Check(okAll && n > 0, "R6", "casketfile.(*Dispenser).Next/true-implies-cursor-in-range", nx.Pos(), "Next() returns true only after advancing the cursor under cursor < len(tokens)-1")
+		bad, nrun := "", 0
+		for n := 0; n <= 3 && bad == ""; n++ {
+			for cur := -1; cur <= n && bad == ""; cur++ {
+				var toks []aval
+				for k := 0; k < n; k++ {
+					toks = append(toks, astruct{map[string]aval{"File": astr("f"), "Line": aint(int64(k + 1)), "Text": astr(fmt.Sprintf("t%d", k))}})
+				}
+				d := &aobj{name: "dispenser", typ: dT, f: map[string]aval{"cursor": aint(int64(cur)), "tokens": newVals(toks, tokT), "nesting": aint(0), "filename": astr("f")}}
+				env := &absEnv{globals: map[string]*aobj{}, noFork: true, maxSteps: 20000}
+				res, und := env.run(nx, []aval{aptr{d, ""}})
+				nrun++
+				b, ok := res.(abool)
+				after, _ := env.load(d, "cursor").(aint)
+				want := cur < n-1
+				wantCur := cur
+				if want {
+					wantCur = cur + 1
+				}
+				if und != "" || !ok || bool(b) != want || int(after) != wantCur {
+					bad = fmt.Sprintf("%d tokens, cursor %d: Next() = %s leaving the cursor at %d; specification: %v with the cursor at %d %s", n, cur, describeAval(res), after, want, wantCur, und)
+				}
+			}
+		}
+		r.Check(bad == "", "R6", "casketfile.(*Dispenser).Next/true-implies-cursor-in-range", nx.Pos(), "Next() advances the cursor by one and returns true exactly when a further token exists, and otherwise leaves it alone and returns false — so Next()==true implies cursor < len(tokens)", fmt.Sprintf("%d evaluations", nrun), bad)
 	}
 	// constructors
 	ctorOK, nc := true, 0
